@@ -4,6 +4,7 @@ import (
 	"go/token"
 	"go/types"
 	"sort"
+	"strconv"
 	"strings"
 
 	"golang.org/x/tools/go/ssa"
@@ -358,6 +359,7 @@ func runC09(c *Ctx) {
 	// ---- A20 ----------------------------------------------------------------
 	c.rule("A20", "a copy of n bytes transfers at most n for every n, negative ones included: safeio.CopyNWithContext copies through io.CopyN with the count given on every path", 1)
 	c.copyNBounded("A20")
+	c.c09DeferredCleanupKeepsTheError()
 
 	// ---- A19 ----------------------------------------------------------------
 	c.rule("A19", "the kind of the end of a context is read from ctx.Err(), never from context.Cause, anywhere in the module", 0)
@@ -1686,6 +1688,102 @@ func (s *c09State) contextKindsTogether() {
 				}
 				c.check(cancelled && timeout, "A18", fname(outermost(f))+"/context-kinds", c.ipos(cl), "both context kinds named",
 					"the error is classified against "+which+" only: a context that ends the other way (deadline instead of cancellation, or the reverse) takes the other branch — where this decides whether the end of the context is reported, one of the two is swallowed")
+			})
+		}
+	}
+}
+
+// c09DeferredCleanupKeepsTheError (A21): "when the context ends while it runs, it … reports the same kinds". An operation that
+// is interrupted still runs its deferred clean-up (closing the archive, the file), and the clean-up may fail in turn — the
+// device is full, the handle is gone. The error of the clean-up must not replace the error the operation is already
+// returning. Decided for every deferred function literal of the module: a store into a captured error variable of the
+// enclosing function is made where that variable was found nil (the nil side of a test of its own value), or stores a
+// value derived from the variable's current value (a conversion, a wrap) or from recover().
+func (c *Ctx) c09DeferredCleanupKeepsTheError() {
+	c.rule("A21", "a deferred function literal stores into the enclosing function's error variable only where that variable is nil, or a value derived from its current value (or from recover()): the failure of a clean-up never replaces the error already being returned — a cancellation stays a cancellation", 2)
+	for _, sp := range c.SSAPkgs {
+		if !strings.HasPrefix(sp.Pkg.Path(), modPath) {
+			continue
+		}
+		rel := shortPkg(sp.Pkg.Path())
+		for _, f := range c.srcFuncs(rel) {
+			if f.Blocks == nil {
+				continue
+			}
+			allInstrs(f, func(in ssa.Instruction) {
+				d, ok := in.(*ssa.Defer)
+				if !ok {
+					return
+				}
+				mc, ok := d.Call.Value.(*ssa.MakeClosure)
+				if !ok {
+					return
+				}
+				lit, _ := mc.Fn.(*ssa.Function)
+				if lit == nil {
+					return
+				}
+				n := 0
+				allInstrs(lit, func(i2 ssa.Instruction) {
+					st, ok := i2.(*ssa.Store)
+					if !ok {
+						return
+					}
+					fv, ok := st.Addr.(*ssa.FreeVar)
+					if !ok || !isErrorType(st.Val.Type()) {
+						return
+					}
+					key := fname(f) + "/deferred-store:" + fv.Name()
+					if n > 0 {
+						key += "#" + strconv.Itoa(n)
+					}
+					n++
+					c.FuncsSeen[fname(f)] = true
+					isLoadOfVar := func(v ssa.Value) bool {
+						u, ok := v.(*ssa.UnOp)
+						return ok && u.Op == token.MUL && u.X == ssa.Value(fv)
+					}
+					// (b) derived from the current value, or from recover()
+					derived := false
+					for _, l := range sources(st.Val, deriveOpts{through: func(string) bool { return true }}) {
+						if isLoadOfVar(l) {
+							derived = true
+						}
+						for k := 0; k < 4; k++ { // panicErr, ok := recover().(error)
+							switch x := l.(type) {
+							case *ssa.Extract:
+								l = x.Tuple
+								continue
+							case *ssa.TypeAssert:
+								l = x.X
+								continue
+							}
+							break
+						}
+						if rc, isCall := l.(*ssa.Call); isCall {
+							if bi, isB := rc.Call.Value.(*ssa.Builtin); isB && bi.Name() == "recover" {
+								derived = true
+							}
+						}
+					}
+					// (a) on the nil side of a test of the variable
+					guarded := false
+					for _, b := range lit.Blocks {
+						ifi, ok := b.Instrs[len(b.Instrs)-1].(*ssa.If)
+						if !ok {
+							continue
+						}
+						x, nilSucc, ok := nilTest(ifi)
+						if !ok || !isLoadOfVar(x) {
+							continue
+						}
+						if edgeDominates(b, nilSucc, st.Block()) {
+							guarded = true
+						}
+					}
+					c.check(derived || guarded, "A21", key, c.ipos(st), "the store is made where the variable is nil / stores a value derived from its current value",
+						"the deferred function overwrites the error the function is returning with the outcome of its clean-up: when the context ends while the operation runs and the clean-up fails too (the device is full when the archive is finalised), the caller is told about the device and not that the operation was cancelled / timed out")
+				})
 			})
 		}
 	}
